@@ -259,7 +259,7 @@ func CheckBuilt(b *trav.Built, c Case) (fs []core.Finding, outcome string) {
 		}
 	}
 	// the package-level functions (a zero Progress) on graphs without links: the same walks
-	if len(fs) == 0 && len(b.Links) == 0 && !strings.Contains(c.Graph.String(), "<") {
+	if len(fs) == 0 && len(b.Links) == 0 && !strings.Contains(c.Graph.String(), "<") && !strings.Contains(c.Sel.String(), "~") {
 		gp := trav.RunWalk(b, b.Root, sel, trav.WalkOpts{PackageLevel: true, NodeBudget: -1, LinkBudget: -1})
 		if gp.Err != "" || !sameSeq(exp.Visits, gp.Visits) {
 			fs = append(fs, core.F("package-level-walkadv/"+feat+"/"+diffCause(exp.Visits, gp.Visits), "%s: traversal.WalkAdv: expected %s, observed %s err=%q", where, render(exp.Visits), render(gp.Visits), gp.Err))
@@ -347,7 +347,7 @@ func Main(r *core.Run) {
 			small = append(small, g)
 		}
 	}
-	jobs := []jobset{{all, selectors(quick)}, {small, Families(quick)}, numeralKeyJobs()}
+	jobs := []jobset{{all, selectors(quick)}, {small, Families(quick)}, numeralKeyJobs(), {small, interpretAsFamilies()}}
 	r.Rule(fmt.Sprintf("every selector AST with ≤%d clauses over the tier's clause alphabet plus every parser-accepted subset bound pair (%d selectors) × every block graph with ≤%d nodes over leaves {int,string,bytes,dangling link}, cut into blocks in every way with ≤%d cuts, plus targeted 3-level shapes with shared/repeated links (%d graphs); targeted families (overlapping unions, unions under recursion with uneven edge distances, unguarded edges, nested recursion: %d selectors) × %d graphs; recursions with a stop-at link condition (every link of the graph as the condition, on one-, two- and three-step sequences); fields clauses naming map keys that look like numbers (01, -1, +2, 00) over maps holding them; WalkAdv and WalkMatching on the real code vs the substitution-style reference denotation. Non-trivial = ≥2 expected visits; distinct by (graph, selector).", map[bool]int{true: 3, false: 4}[quick], len(jobs[0].ss), map[bool]int{true: 4, false: 5}[quick], map[bool]int{true: 2, false: 3}[quick], len(all), len(jobs[1].ss), len(small)))
 	r.Assume("reference denotation mc/trav/refwalk.go: recursion by substitution as documented in exploreRecursive.go (each edge becomes a copy of the recursive selector with depth-1), union = set of members, order = node order under explore-all else stated order")
 	for ji, job := range jobs {
@@ -379,7 +379,7 @@ func Main(r *core.Run) {
 		})
 	}
 	stopAtJobs(r, small)
-	specHelpers(r, jobs[0].ss, jobs[1].ss, jobs[2].ss)
+	specHelpers(r, jobs[0].ss, jobs[1].ss, jobs[2].ss, jobs[3].ss)
 	ss, gs := jobs[0].ss, jobs[0].gs
 	r.Sample(map[string]any{"selector": ss[len(ss)/2].String(), "graph": gs[len(gs)/2].String()})
 	r.Sample(map[string]any{"selector": jobs[1].ss[len(jobs[1].ss)/3].String(), "graph": jobs[1].gs[len(jobs[1].gs)-1].String()})
@@ -546,6 +546,28 @@ func stopAtJobs(r *core.Run, gs []trav.GraphSpec) {
 			r.OutcomeN(k, v)
 		}
 	})
+}
+
+// interpretAsFamilies: the interpret-as clause wherever a clause hands it to a node directly (the
+// root; below explore-all, index, range and fields clauses; nested once more below such a clause):
+// the node is replaced by what the named reifier makes of it (trav.Reifiers: "rev" reverses the
+// children, "box" wraps the node into a one-element list) and the walk goes on with the clause's next
+// selector on that node.
+func interpretAsFamilies() []*trav.Sel {
+	m := trav.M()
+	nexts := []*trav.Sel{m, trav.Sub(1, 3), trav.All(m), trav.Idx(0, m), trav.Idx(1, m), trav.Rng(0, 2, m), trav.Fld(trav.F1("a", m)),
+		trav.Fld(trav.F1("b", m), trav.F1("a", m)), trav.All(trav.All(m)), trav.Un(m, trav.All(m)), trav.Rec(-1, trav.Un(m, trav.All(trav.Edge())))}
+	var out []*trav.Sel
+	for _, name := range []string{"rev", "box"} {
+		for _, n := range nexts {
+			a := trav.As(name, n)
+			out = append(out, a, trav.All(a), trav.Idx(0, a), trav.Idx(1, a), trav.Rng(0, 2, a), trav.Fld(trav.F1("a", a)), trav.Fld(trav.F1("a", a), trav.F1("b", m)))
+		}
+		for _, other := range []string{"rev", "box"} {
+			out = append(out, trav.As(name, trav.All(trav.As(other, m))), trav.As(name, trav.Idx(0, trav.As(other, trav.All(m)))))
+		}
+	}
+	return out
 }
 
 // numeralKeyJobs: map keys that look like numbers but are not canonical decimal numerals are just
